@@ -161,7 +161,18 @@ mod real {
             Some((sexp, plain, cst, tree.root_node().has_error()))
         }
 
-        fn update(&self, path: &Path) -> (String, bool) {
+        /// Raw regex match of a test name for this case's filter (`i`: TREE_SITTER_EXAMPLE_INCLUDE pattern,
+        /// `x`: TREE_SITTER_EXAMPLE_EXCLUDE pattern; the harness has no `regex` dependency of its own, so the two
+        /// patterns are fixed per process and obtained through the CLI crate's env-initialised statics).
+        fn name_match(filter: char, name: &str) -> bool {
+            match filter {
+                'i' => tree_sitter_cli::fuzz::EXAMPLE_INCLUDE.as_ref().map(|r| r.is_match(name)).unwrap_or(false),
+                'x' => tree_sitter_cli::fuzz::EXAMPLE_EXCLUDE.as_ref().map(|r| r.is_match(name)).unwrap_or(false),
+                _ => false,
+            }
+        }
+
+        fn update(&self, path: &Path, filter: char) -> (String, bool) {
             let old = SystemTime::UNIX_EPOCH + Duration::from_secs(946_684_800);
             if let Ok(f) = std::fs::OpenOptions::new().write(true).open(path) {
                 let _ = f.set_modified(old);
@@ -176,8 +187,8 @@ mod real {
                 path: path.to_path_buf(),
                 debug: false,
                 debug_graph: false,
-                include: None,
-                exclude: None,
+                include: if filter == 'i' { tree_sitter_cli::fuzz::EXAMPLE_INCLUDE.clone() } else { None },
+                exclude: if filter == 'x' { tree_sitter_cli::fuzz::EXAMPLE_EXCLUDE.clone() } else { None },
                 file_name: None,
                 update: true,
                 open_log: false,
@@ -197,21 +208,21 @@ mod real {
         }
 
         /// Run one corpus file through the real code and emit the case.
-        pub fn run_case(&mut self, out: &mut impl Write, cid: &str, content: &[u8]) {
+        pub fn run_case(&mut self, out: &mut impl Write, cid: &str, filter: char, content: &[u8]) {
             self.n += 1;
             let dir = self.scratch.join(format!("t{}", self.n)).join("corpus");
             std::fs::create_dir_all(&dir).unwrap();
             let path = dir.join("case.txt");
             std::fs::write(&path, content).unwrap();
-            writeln!(out, "spec {cid} {}", hx(content)).unwrap();
+            writeln!(out, "spec {cid} {filter} {}", hx(content)).unwrap();
             writeln!(out, "case {cid}").unwrap();
             writeln!(out, "os {}", hx(std::env::consts::OS.as_bytes())).unwrap();
             writeln!(out, "orig {}", hx(content)).unwrap();
             let ent0 = entries(&path);
-            let (res1, wrote1) = self.update(&path);
+            let (res1, wrote1) = self.update(&path, filter);
             let after1 = std::fs::read(&path).unwrap();
             let ent1 = entries(&path);
-            let (res2, _wrote2) = self.update(&path);
+            let (res2, _wrote2) = self.update(&path, filter);
             let after2 = std::fs::read(&path).unwrap();
             let ent2 = entries(&path);
             // table (language, input) -> rendering, for every test the real code saw at any stage
@@ -226,6 +237,11 @@ mod real {
                 if let Some((sf, sp, cst, he)) = self.actual(l, inp) {
                     writeln!(out, "act {} {} {} {} {} {}", hx(l.as_bytes()), hx(inp), hx(sf.as_bytes()), hx(sp.as_bytes()), hx(cst.as_bytes()), he as u8).unwrap();
                 }
+            }
+            writeln!(out, "filter {filter}").unwrap();
+            let names: BTreeSet<String> = ent0.iter().chain(ent1.iter()).chain(ent2.iter()).map(|e| e.name.clone()).collect();
+            for n in &names {
+                writeln!(out, "nm {} {}", hx(n.as_bytes()), Self::name_match(filter, n) as u8).unwrap();
             }
             write_entries(out, "ent0", &ent0);
             write_entries(out, "ent1", &ent1);
@@ -442,8 +458,19 @@ mod real {
         }
     }
 
+    /// `[<filter n|i|x>] <hex>`; a leading case id is tolerated.
+    fn parse_spec_line(line: &str) -> (char, &str) {
+        let w: Vec<&str> = line.split_whitespace().collect();
+        let h = *w.last().unwrap();
+        let flt = if w.len() >= 2 && ["n", "i", "x"].contains(&w[w.len() - 2]) { w[w.len() - 2].chars().next().unwrap() } else { 'n' };
+        (flt, h)
+    }
+
     pub fn main() {
         limit_resources();
+        // fixed name filters for the whole run (see `name_match`)
+        std::env::set_var("TREE_SITTER_EXAMPLE_INCLUDE", "e|x");
+        std::env::set_var("TREE_SITTER_EXAMPLE_EXCLUDE", "[io]");
         let args: Vec<String> = std::env::args().collect();
         let out_path = args.get(1).expect("usage: c20 <ops-file> <scratch-dir> [--spec file]").clone();
         let scratch = PathBuf::from(args.get(2).expect("scratch dir"));
@@ -464,8 +491,8 @@ mod real {
                 if line.is_empty() || line.starts_with('#') {
                     continue;
                 }
-                let h = line.split_whitespace().last().unwrap();
-                world.run_case(&mut out, &format!("r{i}"), &if h == "-" { vec![] } else { unhex(h) });
+                let (flt, h) = parse_spec_line(line);
+                world.run_case(&mut out, &format!("r{i}"), flt, &if h == "-" { vec![] } else { unhex(h) });
                 cases += 1;
             }
             out.flush().unwrap();
@@ -478,8 +505,8 @@ mod real {
                 if line.is_empty() || line.starts_with('#') {
                     continue;
                 }
-                let h = line.split_whitespace().last().unwrap();
-                world.run_case(&mut out, &format!("c{i}"), &unhex(h));
+                let (flt, h) = parse_spec_line(line);
+                world.run_case(&mut out, &format!("c{i}"), flt, &if h == "-" { vec![] } else { unhex(h) });
                 cases += 1;
             }
         }
@@ -488,8 +515,15 @@ mod real {
             let mut g = Gen { rng: Rng::new(seed_from_env()), world: &world, gg: gen::GrammarGen::new(&stmt.grammar_json, zoo::read_zoo_file("stmt", "samples.json").as_deref()) };
             (0..n_gen).map(|_| g.file()).collect()
         };
+        let mut frng = Rng::new(seed_from_env() ^ 0xF117E4);
         for (i, f) in files.iter().enumerate() {
-            world.run_case(&mut out, &format!("g{i}"), f);
+            // 40% of the generated files are updated through a name filter (--include / --exclude)
+            let flt = match frng.below(10) {
+                0 | 1 => 'i',
+                2 | 3 => 'x',
+                _ => 'n',
+            };
+            world.run_case(&mut out, &format!("g{i}"), flt, f);
             cases += 1;
         }
         out.flush().unwrap();
